@@ -69,7 +69,7 @@ class World:
         # a header that uses __TIMESTAMP__ is a different input whenever it has been rewritten (its modification time is part of the text)
         stamp = os.stat(os.path.join(self.w, 'h1.h')).st_mtime_ns if '__TIMESTAMP__' in self.files['h1.h'] else None
         return json.dumps([stamp, os.path.basename(self.cur), self.flags, self.lang, self.files['main.c'], self.files['h1.h'], self.files['inc2/h2.h'] if inc2 else self.files['inc1/h2.h'],
-                           self.env.get('SCCACHE_C_CUSTOM_CACHE_BUSTER'), self.out if '-gsplit-dwarf' in self.flags else None] + ([self.files[k] for k in sorted(self.files) if k.endswith('.rsp')] if any(k.endswith('.rsp') for k in self.files) else []))
+                           self.env.get('SCCACHE_C_CUSTOM_CACHE_BUSTER'), self.out if '-gsplit-dwarf' in self.flags else None] + ([self.files[k] for k in sorted(self.files) if k.endswith(('.rsp', '.lst'))] if any(k.endswith(('.rsp', '.lst')) for k in self.files) else []))
     def request(self, note, expect_cacheable=True, evicted=False):
         argv = self.argv(); out = os.path.join(self.w, self.out)
         env = dict(self.env)
@@ -642,3 +642,27 @@ def run_side_outputs(root, tag, compiler):
         finally:
             w.sc.stop(); shutil.rmtree(w.root, ignore_errors=True)
     return {'requests': reqs, 'side_output_scenarios': len(scen), 'fails': fails, 'samples': samples[:1]}
+
+
+# ------------------------------------------------------------------------------------------------ files named by options
+def run_extra_files(root, tag, compiler):
+    """options that name a file whose contents steer code generation (sanitizer / coverage / XRay lists): list A, list B, list A again —
+    every request compared with the direct compile; the third must be a hit, the second must not be answered from the first"""
+    fails = []; reqs = 0; samples = []
+    if os.path.basename(compiler) == 'gcc': scen = [('specs', ['-specs=ign.lst'])]
+    else: scen = [('sanitize_blacklist', ['-fsanitize=address', '-fsanitize-blacklist=ign.lst']), ('sanitize_ignorelist', ['-fsanitize=address', '-fsanitize-ignorelist=ign.lst']),
+            ('coverage_ignorelist', ['-fsanitize-coverage=trace-pc-guard', '-fsanitize-coverage-ignorelist=ign.lst']),
+            ('xray_never', ['-fxray-instrument', '-fxray-instruction-threshold=1', '-fxray-never-instrument=ign.lst'])]
+    for name, flags in scen:
+        w = World(os.path.join(root, 'xf_' + name), f'{tag}xf{name}', compiler, random.Random(0))
+        w.write('main.c', 'int g(int);\nint f(int *p, int n) { int s = 0; for (int i = 0; i < n; i++) s += g(p[i]) * 3; return s; }\n'); w.flags = ([] if name == 'specs' else ['-O1']) + flags; w.sc.start()
+        try:
+            texts = ['*cc1_options:\n+ -O2\n\n', '*cc1_options:\n+ -O0\n\n', '*cc1_options:\n+ -O2\n\n'] if name == 'specs' else ['', 'fun:f\n', '']
+            for i, text in enumerate(texts):
+                w.write('ign.lst', text)
+                w.request(f'list file {name} #{i}: ign.lst = {text!r}'); reqs += 1
+            fails += [dict(f, detail=f'list-file scenario {name}: ' + f['detail']) for f in w.fails if f['kind'] not in KNOWN_DEVIATIONS][:2]
+            samples.append(' ; '.join(w.trace))
+        finally:
+            w.sc.stop(); shutil.rmtree(w.root, ignore_errors=True)
+    return {'requests': reqs, 'extra_file_scenarios': len(scen), 'fails': fails, 'samples': samples[:1]}
